@@ -409,11 +409,123 @@ def digest_cases():
     return out
 
 
+# ---------------------------------------------------------------------------------------
+# Path.slice: the constraints that identify a state are closed under "shares a variable with"
+
+
+def vars_of(t):
+    out, todo = set(), [t]
+    while todo:
+        u = todo.pop()
+        if z3.is_const(u) and u.decl().kind() == z3.Z3_OP_UNINTERPRETED:
+            out.add(str(u))
+        todo.extend(u.children())
+    return out
+
+
+def closure_ok(path, state_vars):
+    """(ok, witness): every condition outside path.sliced shares no variable with the state variables or with a sliced condition"""
+    conds = list(path.conditions)
+    reach = set(map(str, state_vars))
+    for i in sorted(path.sliced):
+        reach |= vars_of(conds[i])
+    for i, c in enumerate(conds):
+        if i not in path.sliced and vars_of(c) & reach:
+            return False, f"condition #{i} `{c}` constrains {sorted(vars_of(c) & reach)} but is not part of the state's constraints {sorted(path.sliced)} of {[str(x) for x in conds]}"
+    return True, ""
+
+
+def slice_cases():
+    from contracts.common import config
+
+    out = []
+    x, y, z, w, u = z3.BitVecs("sx sy sz sw su", 256)
+    POOL = [z3.ULT(x, y), y == 5, z == 1, z3.ULT(y, w), u == 9]
+
+    def harness_orders(interp):
+        ctx = interp.ctx
+        bad = []
+        n = 0
+        for order in itertools.permutations(range(len(POOL))):
+            for state_vars in ([x], [z], [x, z], [w]):
+                p = hs.Path(hm.mk_solver(config()))
+                for i in order:
+                    interp.call(hs.Path.__dict__["append"], [p, POOL[i]], {})
+                interp.call(hs.Path.__dict__["slice"], [p, set(state_vars)], {})
+                n += 1
+                ok, why = closure_ok(p, state_vars)
+                if not ok and len(bad) < 3:
+                    bad.append(why)
+        ctx.oblige(f"closure: whatever the order in which constraints were added ({n} histories), every constraint that shares a variable (transitively) with a state variable is part of the state's identity and of the successor's solver", z3.BoolVal(not bad), info={"witness": bad[0][:300] if bad else ""})
+
+    out.append(Case(f"{PROP}/sevm.Path.slice#closure", "five constraints in every order, four choices of state variables", harness_orders, replay=replay_slice_order, sources=("halmos.sevm:Path.slice", "halmos.sevm:Path._get_related", "halmos.sevm:Path.append")))
+
+    def harness_two_tx(interp):
+        ctx = interp.ctx
+        bad = []
+        for first in itertools.permutations([0, 1, 2]):
+            for second in itertools.permutations([3, 4]):
+                p1 = hs.Path(hm.mk_solver(config()))
+                for i in first:
+                    interp.call(hs.Path.__dict__["append"], [p1, POOL[i]], {})
+                interp.call(hs.Path.__dict__["slice"], [p1, {x}], {})
+                p2 = hs.Path(hm.mk_solver(config()))
+                interp.call(hs.Path.__dict__["extend_path"], [p2, p1], {})
+                for i in second:
+                    interp.call(hs.Path.__dict__["append"], [p2, POOL[i]], {})
+                interp.call(hs.Path.__dict__["slice"], [p2, {x}], {})
+                ok, why = closure_ok(p2, [x])
+                if not ok and len(bad) < 3:
+                    bad.append(why)
+                # the successor's solver holds at least the constraints identifying the parent state
+                held = {str(a) for a in p2.solver.assertions()}
+                need = {str(c) for i, c in enumerate(p1.conditions) if i in p1.sliced}
+                if not need <= held and len(bad) < 3:
+                    bad.append(f"successor solver lacks {sorted(need - held)}")
+        ctx.oblige("closure across transactions: a path extended from a sliced path still finds the earlier transactions' constraints on the state variables", z3.BoolVal(not bad), info={"witness": bad[0][:300] if bad else ""})
+
+    out.append(Case(f"{PROP}/sevm.Path.slice#closure", "two transactions (extend_path in between)", harness_two_tx, replay=replay_slice_order, sources=("halmos.sevm:Path.slice", "halmos.sevm:Path.extend_path", "halmos.sevm:Path.append")))
+    return out
+
+
+def replay_slice_order(r):
+    from contracts.common import config
+
+    x, y = z3.BitVecs("stored limit", 256)
+    ids = []
+    for branch in (y == 5, y != 5):
+        p = hs.Path(hm.mk_solver(config()))
+        p.append(z3.ULT(x, y))  # require(stored < limit); the contract stores `stored`
+        p.append(branch)  # a later branch on `limit` only
+        p.slice({x})
+        ids.append(tuple(c.get_id() for i, c in enumerate(p.conditions) if i in p.sliced))
+    if ids[0] == ids[1]:
+        return {"reproduced": True, "detail": "two paths store x under x < y and then branch on y == 5 / y != 5: Path.slice({x}) keeps only `x < y` on both, so both post-states hash to the same identity and the second is dropped as already visited although it stands for different values of the stored x (x < 5 versus x < y, y != 5)", "inputs": "append(x < y); append(y == 5 | y != 5); slice({x})"}
+    p1 = hs.Path(hm.mk_solver(config()))
+    p1.append(z3.ULT(x, y))
+    p1.slice({x})
+    p2 = hs.Path(hm.mk_solver(config()))
+    p2.extend_path(p1)
+    p2.append(y == 5)
+    p2.slice({x})
+    if len(p2.sliced) < 2:
+        return {"reproduced": True, "detail": f"after extend_path the constraints of the previous transaction are not found any more: sliced = {p2.sliced} for conditions {[str(c) for c in p2.conditions]}"}
+    try:
+        from contracts import c15_frontier_replay as fr
+
+        miss, counts = fr.missing_states()
+        if miss:
+            return {"reproduced": True, "detail": f"real get_frontier on the target `set(x, y) {{ require(x + y == 10); s = x; if (y == 3) return; if (y == 4) return; revert(); }}`: depth 1 has {counts.get(1)} explored state(s) and the call(s) {sorted(miss)} are not represented by any of them (two different post-states were merged)", "inputs": "invariant frontier at depth 1 of the hand-assembled target"}
+    except Exception as e:  # noqa
+        return {"reproduced": None, "detail": f"end-to-end frontier replay could not run: {type(e).__name__}: {e}"}
+    return {"reproduced": False, "detail": "state constraints are closed under shared variables in both scenarios and the end-to-end frontier represents both calls"}
+
+
 def build_cases(tier="quick"):
     from contracts import c20
 
     ref = [Case(f"{PROP}/__main__.run_message", c.case, c.harness, sources=c.sources) for c in c20.main_cases() if c.unit.endswith("__main__.run_message")]
-    return sender_cases() + frontier_cases() + digest_cases() + ref
+    return sender_cases() + frontier_cases() + digest_cases() + slice_cases() + ref
 
 
 def grounds():
